@@ -63,6 +63,23 @@ def templates(rnd):
                 {"a": [0, 1, 2, 3]},
                 {"blocks": [{"name": "o1", "stmts": [["solve_order", F("a"), F("b")]]}, {"name": "o2", "stmts": [["solve_order", F("b"), F("a")]]}],
                  "off": ["o2"]}))
+    # T10: a third random field of the same rand set that no declaration names (k <= b): a is still chosen first
+    out.append(("unnamed_third", [("a", 1, False), ("b", 6, False), ("k", 6, False)],
+                [["solve_order", F("a"), F("b")],
+                 ["if", ["bin", "Eq", F("a"), ["lit", 0]], [["expr", ["bin", "Eq", F("b"), ["lit", 4]]]], [], [["expr", ["bin", "Ne", F("b"), ["lit", 4]]]]],
+                 ["expr", ["bin", "Le", F("k"), F("b")]]],
+                {"a": [0, 1]}))
+    # T11: a total order written with a list as the later argument: solve_order(a, [b, c]); solve_order(b, c)
+    out.append(("after_list", [("a", 1, False), ("b", 6, False), ("c", 6, False)],
+                [["solve_order", F("a"), [F("b"), F("c")]], ["solve_order", F("b"), F("c")],
+                 ["if", ["bin", "Eq", F("a"), ["lit", 0]], [["expr", ["bin", "Eq", F("b"), ["lit", 4]]]], [], [["expr", ["bin", "Ne", F("b"), ["lit", 4]]]]],
+                 ["expr", ["bin", "Le", F("c"), F("b")]]],
+                {"a": [0, 1]}))
+    # T12: an enum-typed field solved first
+    out.append(("enum_first", [{"name": "a", "kind": "enum", "enum": "E0", "rand": True}, ("b", 6, False)],
+                [["solve_order", F("a"), F("b")],
+                 ["if", ["bin", "Eq", F("a"), ["enumlit", "E0", 0]], [["expr", ["bin", "Eq", F("b"), ["lit", 4]]]], [], [["expr", ["bin", "Ne", F("b"), ["lit", 4]]]]]],
+                {"a": [0, 1]}, {"enums": {"E0": [3, 7]}}))      # (enum fields are observed by enumerator index)
     return out
 
 
@@ -74,7 +91,7 @@ def mk_scenario(t, ncalls):
     ops = [{"op": "new", "var": "o", "cls": "K0"}, {"op": "seed", "var": "o", "seed": 1}]
     ops += [{"op": "cmode", "var": "o", "path": [], "block": b, "on": False} for b in extra.get("off", [])]
     ops += [{"op": "randomize", "var": "o", "inline": None} for _ in range(ncalls)]
-    return {"enums": {}, "classes": [cls], "root_cls": "K0", "ops": ops, "template": name, "feasible": feas, "off": extra.get("off", [])}
+    return {"enums": extra.get("enums", {}), "classes": [cls], "root_cls": "K0", "ops": ops, "template": name, "feasible": feas, "off": extra.get("off", [])}
 
 
 def first_fields(stmts):
@@ -179,7 +196,7 @@ def run(ctx):
     ctx.coverage.update({
         "evaluations": evals,
         "distinct_nontrivial": len({repr(s["classes"]) for s in scs}),
-        "rule": "nine templates (two alternative blocks with opposite orderings, one switched off; implication, b <= a, narrowed range, signed first variable, chain a->b->c, list of first variables, "
+        "rule": "twelve templates (an enum-typed first field; a third unnamed field in the ordered rand set; a list as the later argument of a total order; two alternative blocks with opposite orderings, one switched off; implication, b <= a, narrowed range, signed first variable, chain a->b->c, list of first variables, "
                 "the chain with the last variable mentioned first - b judged given a = 0 -, a vsc list as the later argument) "
                 "with seeded parameters, each randomised %d times from a fixed RandState; per call: normal return, swizzle order "
                 "in the solver transcript (no slice of a first-solved field after a slice of a later one); per template: histogram "
